@@ -78,6 +78,7 @@ func (*c20) Corpus() []any {
 }
 
 func (*c20) Exhaustive(tier string) []any {
+	c20Tier = tier
 	var out []any
 	out = append(out, c20ChartExhaustive(tier)...)
 	out = append(out, c20ManifestExhaustive(tier)...)
@@ -156,6 +157,9 @@ func (*c20) execute(c c20Case) any {
 	case "schema":
 		return c20ExecSchema(c.Schema)
 	case "explore":
+		if c20UseWorker() {
+			return c20ViaWorker(c.Explore)
+		}
 		return c20ExecExplore(c.Explore)
 	}
 	return c20Obs{Class: "err", Where: "unknown case kind"}
